@@ -3,7 +3,7 @@ import random
 from pipefam import *
 
 GEN = 'C13'
-MODEL_FN = 'Model/Pb.v:pb_encode/frame (vs MarshalBinary bytes), Model/Render.v:json_default/text_default (vs MarshalJSON / MarshalText bytes, default configuration), Model/Json.v:esc_string (vs encoding/json)'
+MODEL_FN = 'Model/Pb.v:pb_encode/frame (vs MarshalBinary bytes), Model/Render.v:json_default/text_default (default configuration) and Model/Format.v:format_json/format_text (ANY formatter configuration) vs MarshalJSON / MarshalText bytes, Model/Json.v:esc_string_utf8 (vs encoding/json)'
 RULE = ('stream mixed: histories of NetFlow v5/v9/IPFIX and sFlow datagrams through the auto pipe with a format that runs the '
         'real json, text and bin drivers on every message: the bin bytes must equal the model\'s frame(pb_encode m) and the JSON '
         'and text bytes the model\'s json_default / text_default (renderers: IP incl. RFC 5952, MAC, names, prefixes) byte for '
@@ -12,12 +12,15 @@ RULE = ('stream mixed: histories of NetFlow v5/v9/IPFIX and sFlow datagrams thro
         'written and re-marshal to the same bytes; stream jsonstr: ASCII strings (quotes, backslashes, control characters) '
         'through encoding/json vs the model escape, all 128 single bytes exhaustively; configs: the same histories under '
         'generated formatter configurations (field subsets/orders, renames, every registered renderer incl. string on byte '
-        'fields, custom protobuf fields scalar/array fed by IPFIX/v9 mappings) judged by the implementation-side oracles. '
+        'fields and datetime, the virtual field icmp_name, custom protobuf fields scalar/array fed by IPFIX/v9 mappings): the JSON and '
+        'text BYTES of every message compared with the general formatter model Model/Format.v compiled from the same configuration '
+        '(timestamps beyond year 9999 are outside the model and left to the oracles), plus the implementation-side oracles. '
         'non-trivial = at least one message serialised; distinct by input')
 TRUSTED = ['Coq 8.16.1 kernel (coqc)', 'extraction + ocaml/main.ml glue', 'Go harness harness/fmt.go (oracles: json.Valid, '
            'streaming key decoder, protodelim.UnmarshalFrom loop, proto.Unmarshal), bin/engine.py',
            'modelled, not verified: producer/proto/messages.go (formatter), format/*; protobuf-go and encoding/json are trusted libraries']
-ASSUMPTIONS = ['JSON string escaping is modelled for arbitrary bytes (Model/Json.v:esc_string_utf8: UTF-8 table, U+2028/U+2029, U+FFFD for ill-formed bytes)', 'the default configuration is modelled byte for byte (Model/Render.v, name tables regenerated from render.go / flow.pb.go); other configurations (renames, non-default renderers incl. datetime, custom fields) are judged by json.Valid and cross-format agreement on the implementation',
+ASSUMPTIONS = ['JSON string escaping is modelled for arbitrary bytes (Model/Json.v:esc_string_utf8: UTF-8 table, U+2028/U+2029, U+FFFD for ill-formed bytes)', 'every formatter configuration is modelled byte for byte (Model/Format.v; struct layout, registered and default renderers, slice table and name tables regenerated from flow.pb.go / render.go / config_impl.go); outside the model: timestamps beyond year 9999, configurations whose render keys collide after translation (Go map order), output names that would need escaping',
+               'the abstract configuration tokens and the YAML text describe the same file (both printed from one Python structure)',
                ]
 STREAMS = [dict(name='mixed', stream=0, n=dict(quick=150, thorough=3000), timeout=120.0),
            dict(name='jsonstr', stream=1, n=dict(quick=2000, thorough=40000))]
@@ -53,10 +56,12 @@ def gen_cfg(rng):
         for f in ren:
             y.append('    %s: x_%s' % (f, f))
     rr = rng.sample([f for f in fields if f != 'icmp_name'], min(len(fields) - 1, rng.randrange(0, 6))) if len(fields) > 1 else []
+    rmap = {f: rng.choice(RENDERERS) for f in rr}
     if rr:
         y.append('  render:')
         for f in rr:
-            y.append('    %s: %s' % (f, rng.choice(RENDERERS)))
+            y.append('    %s: %s' % (f, rmap[f]))
+    nfmaps = []
     if customs:
         y.append('  protobuf:')
         for c in customs:
@@ -65,9 +70,16 @@ def gen_cfg(rng):
         for sect in ('ipfix', 'netflowv9'):
             y += ['%s:' % sect, '  mapping:']
             for c in customs:
-                y += ['    - field: %d' % rng.choice([1, 2, 4, 7, 8, 10, 27, 56, 61, 82, 152]),
-                      '      destination: %s' % c['name']]
-    return '\n'.join(y) + '\n'
+                fid = rng.choice([1, 2, 4, 7, 8, 10, 27, 56, 61, 82, 152])
+                y += ['    - field: %d' % fid, '      destination: %s' % c['name']]
+                nfmaps.append((10 if sect == 'ipfix' else 9, fid, c['name']))
+    toks = fmt_tokens(fields, {f: 'x_' + f for f in ren}, rmap) + ['cfg']
+    for c in customs:
+        toks += ['custom', c['name'], '#%x' % c['index'], '#%x' % (0 if c['type'] == 'varint' else 1), '#%x' % int(c['array'])]
+    for ver, fid, dest in nfmaps:
+        toks += ['nf', '#%x' % ver, '#0', '#0', '#%x' % fid, dest, '#0']
+    toks.append('end')
+    return '\n'.join(y) + '\n', toks
 
 
 def verdicts(line):
@@ -152,28 +164,38 @@ def run(chk):
     bad = run_scope_b(chk, me, sweep, 'render-sweep', {}, timeout=120.0)
     chk.exhaustive.append('all 256 zero/non-zero group patterns of an IPv6 address, every protocol number 0..255, through the real JSON and text drivers (default configuration): %d messages' % len(sweep))
     resolve_scope_b(chk, me, bad, 'render-sweep', {}, None, None)
-    # generated formatter configurations, implementation-side oracles
+    # generated formatter configurations: the JSON and text BYTES of every message vs the general formatter model
+    # (Model/Format.v: field list and order, renames, every registered renderer on every kind of column, virtual field,
+    # custom fields scalar / array only when carried), plus the implementation-side oracles (json.Valid, keys, agreement)
     rng = random.Random(chk.seed * 31 + 13)
-    ncfg = dict(quick=40, thorough=600)[chk.tier]
+    ncfg = dict(quick=60, thorough=900)[chk.tier]
     base = model_gen(GEN, 0, chk.seed + 5, 0, dict(quick=20, thorough=100)[chk.tier])
     ins = []
     for _ in range(ncfg):
-        cfg = 'yaml:' + gen_cfg(rng).encode().hex()
+        y, toks = gen_cfg(rng)
         for a, _ in rng.sample(base, 5):
             f = a.split(' ')
-            f[2] = cfg
-            ins.append(' '.join(f))
+            ins.append('pipec flow yamlj:%s %s %s' % (y.encode().hex(), ' '.join(toks), ' '.join(f[3:])))
     impl = impl_run(chk.harness, ins, timeout=120.0)
+    mod = model_run('C14', ins)
     chk.evals += len(ins)
-    chk.count('configs', len(ins))
-    for a, o in zip(ins, impl):
-        if ' b ' in o:
+    chk.count('configs x histories', len(ins))
+    noom = nfmt = 0
+    for a, o, m in zip(ins, impl, mod):
+        if ' j ' in m:
             chk.nontrivial.add(hashlib.sha1(a.encode()).digest()[:8])
+        noom += m.count(' oom')
+        nfmt += m.count(' j ')
+        cfgtxt = bytes.fromhex(a.split(' ')[2][6:]).decode()
         if 'BAD' in o or 'fmterr' in o or o in ('cfgerr', 'crash', 'hang', 'panic'):
-            chk.record('scopeA-config', dict(concrete=True, input=a, impl=verdicts(o)[:3000],
-                       config=bytes.fromhex(a.split(' ')[2][5:]).decode(),
+            chk.record('scopeA-config', dict(concrete=True, input=a[:60000], impl=verdicts(o)[:3000], config=cfgtxt,
                        what='a message did not serialise as the property requires under a generated formatter configuration'), {})
+        elif mask_oom(o, m) != m:
+            chk.record('scopeA-config-bytes', dict(concrete=True, input=a[:60000], impl=mask_oom(o, m)[:6000], expected=m[:6000], config=cfgtxt,
+                       what='the JSON / text form under a generated formatter configuration is not the configured fields in order with the documented renderings'), {})
+    chk.count('messages whose JSON and text bytes were compared under a generated configuration', nfmt)
+    chk.count('forms outside the formatter model (timestamps beyond year 9999 etc.), judged by the oracles only', noom)
     if ins and len(chk.samples) < 6:
-        chk.samples.append(dict(stream='configs', config=bytes.fromhex(ins[0].split(' ')[2][5:]).decode()[:800],
+        chk.samples.append(dict(stream='configs', config=bytes.fromhex(ins[0].split(' ')[2][6:]).decode()[:800],
                                 impl=verdicts(impl[0])[:400]))
     return chk.finish(me)
